@@ -714,6 +714,13 @@ def work_curve(job):
                                             "reference_accepts": want, "library_rc": ob.rc})
                 continue
             e_lib = lib_model_e(c, f[0], order)
+            if (not acc) and ob.rc == 75 and c.algo == ecdsa.ALGO_GOST and len(f[0]) > 2 * nb:
+                # GOST alpha is the whole hash; the byte API works in "double size + 1 digit" objects
+                # (EC_CURVE_CALC_BITS_DBL), so a string longer than 2*bytes need not fit: with 8-bit digits
+                # 2*bytes+2 bytes are refused by the import with EOVERFLOW.  A loud refusal of an input
+                # wider than the documented working size is not a wrong verdict.
+                common.part_count(part, "gost_hash_wider_than_working_size_refused")
+                continue
             if acc and not vm["chk"] and nochk_unvalidated_key(c, order, op, f):
                 common.part_count(part, "nochk_unvalidated_key_accepted_not_gated")
                 continue
@@ -1050,6 +1057,8 @@ def replay(path):
     print("observed :", cur)
     exp = w.get("expect") or {}
     still = True
+    if exp == "error":
+        still = ob.rc == 0
     if isinstance(exp, dict):
         if "accept" in exp:
             still = (ob.rc == 0) != bool(exp["accept"])
